@@ -712,6 +712,9 @@ func (g *Gen) callCommon(in *ssa.Call, cc *ssa.CallCommon, guard string) {
 	if ct.Trusted != "" {
 		g.trustedUsed[shortFn(ct.Key)+": "+ct.Trusted] = true
 	}
+	for _, a := range ct.Assumes {
+		g.assumptions["unchecked assumption about the callers of "+shortFn(ct.Key)+": "+a.E.String()] = true
+	}
 	g.evalLets(ct, env.vars, false)
 	for i, rq := range ct.Requires {
 		g.ob("pre:"+key, invLabel(rq, i), g.transBool(rq.E, env), rq.E.String())
@@ -731,6 +734,12 @@ func (g *Gen) callCommon(in *ssa.Call, cc *ssa.CallCommon, guard string) {
 	}
 	g.bindResults(env, sig, func(i int) string { return results[i] })
 	env.old = oldAll
+	// objects the callee allocates: their components hold whatever the callee put there
+	for _, a := range ct.Allocates {
+		for _, tg := range g.targetsOf(a, env) {
+			g.havocTarget(tg)
+		}
+	}
 	for _, e := range ct.Ensures {
 		g.assume(guard, g.transBool(e.E, env))
 	}
@@ -799,6 +808,9 @@ func (g *Gen) havocTarget(tg target) {
 	inner := s[len("(Array Int ") : len(s)-1]
 	nv := g.fresh("hv_"+tg.comp, inner)
 	g.setComp(tg.comp, fmt.Sprintf("(store %s %s %s)", h, tg.ref, nv))
+	// what a callee stored there may be an object it allocated: values loaded from this version
+	// are not known to predate the function
+	delete(g.pristine, g.cur[tg.comp])
 }
 
 // builtins
@@ -900,7 +912,7 @@ func (g *Gen) appendBuiltin(in *ssa.Call, cc *ssa.CallCommon) {
 	g.nfresh++
 	nb := fmt.Sprintf("%d", 1000000000+g.nfresh)
 	ncap := g.fresh("appcap", g.idxSort())
-	g.assumeAlways(fmt.Sprintf("(and %s %s)", g.le(nl, ncap, true), g.lt(ncap, g.idx(4611686018427387904), true)))
+	g.assumeAlways(fmt.Sprintf("(and %s %s)", g.le(nl, ncap, true), g.lt(ncap, g.idx(281474976710656), true)))
 	r := g.define("app", "Slice", fmt.Sprintf("(ite %s (mk-slice (base %s) (off %s) %s (cap %s)) (mk-slice %s %s %s %s))", fits, a, a, nl, a, nb, g.idx(0), nl, ncap))
 	// contents: target array = in-place or fresh; elements [off+la, off+la+lb) from b; prefix preserved
 	na := g.fresh("apparr", inner)
